@@ -531,27 +531,28 @@ func (sh *Shared) done() {
 // ---------------------------------------------------------------- per-worker explorer
 
 type Explorer struct {
-	sh           *Shared
-	S            *Solver
-	sec          []*Solver
-	secPos       []int
-	script       []string // permanent commands of the current path
-	prefix       []decision
-	trail        []decision
-	vars         []VarInfo
-	pins         []ModelVal // concrete byte strings the harness pins for native replay (verif.Pin)
-	occ          map[string]int
-	nterms       int
-	nvars        int
-	events       []string
-	instrs       int64
-	funcs        map[string]int
-	models       map[string]int
-	pathViolated bool
-	uid          int
-	terms        map[string]sym
-	prefNeg      string
-	fp           bool // the path has floating-point terms: one-shot queries
+	sh            *Shared
+	S             *Solver
+	sec           []*Solver
+	secPos        []int
+	script        []string // permanent commands of the current path
+	prefix        []decision
+	trail         []decision
+	vars          []VarInfo
+	pins          []ModelVal              // concrete byte strings the harness pins for native replay (verif.Pin)
+	violatedTerms map[string]violatedTerm // condition terms already found violated on this path
+	occ           map[string]int
+	nterms        int
+	nvars         int
+	events        []string
+	instrs        int64
+	funcs         map[string]int
+	models        map[string]int
+	pathViolated  bool
+	uid           int
+	terms         map[string]sym
+	prefNeg       string
+	fp            bool // the path has floating-point terms: one-shot queries
 	harnessState
 }
 
@@ -584,6 +585,7 @@ func (x *Explorer) startPath(prefix []decision) {
 	x.trail = x.trail[:0]
 	x.vars = x.vars[:0]
 	x.pins = nil
+	x.violatedTerms = nil
 	x.occ = map[string]int{}
 	x.nterms, x.nvars = 0, 0
 	x.events = nil
@@ -981,6 +983,11 @@ func (x *Explorer) choices() []uint64 {
 }
 
 // assert discharges one property query: pc ∧ ¬cond.
+type violatedTerm struct {
+	m  []ModelVal
+	ev []string
+}
+
 func (x *Explorer) assert(label string, c value) {
 	sh := x.sh
 	switch c := c.(type) {
@@ -1008,6 +1015,19 @@ func (x *Explorer) assert(label string, c value) {
 		}
 		return
 	case sym:
+		// the same condition under another label (one fact claimed for two properties) after it was found violated on this
+		// path: the path now continues under the assumption that it holds, so report the alias from the recorded model
+		if pv, seen := x.violatedTerms[c.e]; seen {
+			sh.mu.Lock()
+			sh.Asserts++
+			ls := x.labelStat(label)
+			ls.Queries++
+			ls.Sat++
+			sh.AssertSat++
+			sh.mu.Unlock()
+			x.recordViolation(label, false, pv.m, pv.ev, nil)
+			return
+		}
 		r := ""
 		if x.prefNeg != "" {
 			// a preferred (more telling) counterexample region, e.g. a size far beyond the bound
@@ -1063,6 +1083,10 @@ func (x *Explorer) assert(label string, c value) {
 		}
 		sh.mu.Unlock()
 		if r == "sat" {
+			if x.violatedTerms == nil {
+				x.violatedTerms = map[string]violatedTerm{}
+			}
+			x.violatedTerms[c.e] = violatedTerm{m: m, ev: ev}
 			x.recordViolation(label, false, m, ev, cross)
 			// continue under the assumption that the assertion holds where that is possible (so that independent
 			// violations further on are found too); when it fails on the whole path, continue unconstrained
